@@ -166,7 +166,13 @@ func ruleMoveNonNil(c *Ctx, m *heapModel) {
 
 // ruleEmptyAgreesLen (R-EMPTY-LEN): IsEmpty and Len of one container speak about the same quantity: IsEmpty tests
 // against zero exactly the expression Len returns (or calls Len).
-func ruleEmptyAgreesLen(c *Ctx, pkg, typ string) {
+// ruleEmptyPolarity: the polarity half of R-EMPTY-LEN only, for types whose emptiness is not a count (a nil ring,
+// a list whose first link is nil).
+func ruleEmptyPolarity(c *Ctx, pkg, typ string) { ruleEmptyAgreesLenOpt(c, pkg, typ, true) }
+
+func ruleEmptyAgreesLen(c *Ctx, pkg, typ string) { ruleEmptyAgreesLenOpt(c, pkg, typ, false) }
+
+func ruleEmptyAgreesLenOpt(c *Ctx, pkg, typ string, polarityOnly bool) {
 	c.rule("R-EMPTY-LEN", 0, "IsEmpty compares with zero the very quantity Len returns")
 	ln, ie := c.P.Func(pkg, typ, "Len"), c.P.Func(pkg, typ, "IsEmpty")
 	// polarity: whatever is tested, the answer is true for "nothing" and false for "something": count == 0 (not
@@ -217,7 +223,7 @@ func ruleEmptyAgreesLen(c *Ctx, pkg, typ string) {
 			c.judge(verdict, "R-EMPTY-LEN", fmt.Sprintf("%s:polarity #%d", fnName(ie), k), bo.Pos(), "true for nothing, false for something", fmt.Sprintf("IsEmpty returns %s %s %s: it answers true for a container that holds something (or false for one that holds nothing)", ksym(x), op, ksym(y)))
 		})
 	}
-	if ln == nil || ie == nil || len(ln.Blocks) != 1 || len(ln.Params) == 0 || len(ie.Params) == 0 {
+	if polarityOnly || ln == nil || ie == nil || len(ln.Blocks) != 1 || len(ln.Params) == 0 || len(ie.Params) == 0 {
 		return
 	}
 	ret, ok := ln.Blocks[0].Instrs[len(ln.Blocks[0].Instrs)-1].(*ssa.Return)
@@ -542,6 +548,44 @@ func ruleTrimAmount(c *Ctx) {
 						if base, opf := loadedField(pr[0]); opf != nil && opf.Name() == "Op" && sym(base) == sym(fa.X) {
 							isEmit = true
 						}
+					}
+				}
+				// the cut lives in a helper that is handed the edit: the fact is then owed by every call site
+				if prm, isP := fa.X.(*ssa.Parameter); isP && !isEmit && f.Object() != nil && !f.Object().Exported() {
+					pi := -1
+					for i, q := range f.Params {
+						if q == prm {
+							pi = i
+						}
+					}
+					sites, good := 0, 0
+					for _, g := range c.P.PkgFuncs("mdiff") {
+						allInstrs(g, func(in2 ssa.Instruction) {
+							call, ok := in2.(*ssa.Call)
+							if !ok || origin(staticCallee(&call.Call)) != origin(f) || pi < 0 || pi >= len(call.Call.Args) {
+								return
+							}
+							sites++
+							arg := call.Call.Args[pi]
+							for _, cm := range cmpsAt(call.Block()) {
+								if cm.Op != token.EQL {
+									continue
+								}
+								for _, pr := range [][2]ssa.Value{{cm.X, cm.Y}, {cm.Y, cm.X}} {
+									k, isK := constInt(pr[1])
+									if !isK || k != '=' {
+										continue
+									}
+									if base, opf := loadedField(pr[0]); opf != nil && opf.Name() == "Op" && sym(base) == sym(arg) {
+										good++
+										return
+									}
+								}
+							}
+						})
+					}
+					if sites > 0 && good == sites {
+						isEmit = true
 					}
 				}
 				c.sawFn(fnName(f))
